@@ -52,7 +52,18 @@ fn key_report(privk: &str, pubk: &str) -> String {
         algorithms: vec!["plain".to_string()],
     };
     let crypto = match crate::crypto::Crypto::new([0; 16], &cfg) { Ok(_) => "ok", Err(_) => "err" };
-    format!("privparse={} pubparse={} pair={} crypto={}", privparse, pubparse, pair, crypto)
+    // a configuration that ALSO carries a password (say from the config file, the key from the command line): the configured key pair is the node's
+    let cfg2 = crate::crypto::Config {
+        password: Some("some other password".to_string()),
+        private_key: Some(privk.to_string()),
+        public_key: Some(pubk.to_string()),
+        trusted_keys: vec![],
+        algorithms: vec!["plain".to_string()],
+    };
+    let both = match crate::crypto::Crypto::new([0; 16], &cfg2) { Ok(c) => format!("ok:{}", hex(&hc::crypto_public_key(&c))), Err(_) => "err".to_string() };
+    let cfg3 = crate::crypto::Config { public_key: None, ..cfg2 };
+    let both2 = match crate::crypto::Crypto::new([0; 16], &cfg3) { Ok(c) => format!("ok:{}", hex(&hc::crypto_public_key(&c))), Err(_) => "err".to_string() };
+    format!("privparse={} pubparse={} pair={} crypto={} both={} bothnopub={}", privparse, pubparse, pair, crypto, both, both2)
 }
 
 pub fn b62_step(t: &[&str]) -> Option<String> {
